@@ -81,6 +81,10 @@ enum {
     V_REFCOUNT,
     V_CONTROL,
     V_DEAD_EARLY,           /* destroyed while the application still holds its reference */
+    V_ORDER,                /* a buffer came out twice or out of order */
+    V_PAYLOAD,              /* a pass-through pipe changed the payload */
+    V_LOST,                 /* an immediate pass-through pipe swallowed a buffer */
+    V_GETTER,               /* a getter does not report what the setter stored */
 };
 
 static const char *class_name(int cls)
@@ -94,6 +98,10 @@ static const char *class_name(int cls)
     case V_REFCOUNT: return "refcount";
     case V_CONTROL: return "control";
     case V_DEAD_EARLY: return "dead_while_referenced";
+    case V_ORDER: return "reordered_or_duplicated";
+    case V_PAYLOAD: return "payload_changed";
+    case V_LOST: return "buffer_swallowed";
+    case V_GETTER: return "getter_value";
     default: return NULL;
     }
 }
@@ -108,34 +116,36 @@ enum {
     OP_SINK_MODE,       /* a0 = sink, a1: 0 accept, 1 refuse */
     OP_ATTACH,          /* a0 bit0 upump_mgr, bit1 uclock */
     OP_RELEASE,
+    OP_OPTION,          /* a0 = which option of the pipe, a1 = value selector */
     OP__N
 };
 static const char *op_name(int code)
 {
     static const char *const n[] = { "?", "flow_def", "input", "run", "advance", "flush", "set_output", "sink_mode",
-                                     "attach", "release" };
+                                     "attach", "release", "option" };
     return code > 0 && code < OP__N ? n[code] : "?";
 }
 
 enum { CFG_PROP = 0, CFG_TYPE, CFG_POOL, CFG_FAULTS, CFG_PROVIDE };
 
-struct ptype { const char *name; struct upipe_mgr *(*mgr_alloc)(void); };
+enum { F_ORDER = 1, F_SAME_PAYLOAD = 2, F_IMMEDIATE = 4 };
+struct ptype { const char *name; struct upipe_mgr *(*mgr_alloc)(void); unsigned flags; };
 static const struct ptype types[] = {
-    { "buffer", upipe_buffer_mgr_alloc }, { "burst", upipe_burst_mgr_alloc },
-    { "convert_to_block", upipe_tblk_mgr_alloc }, { "dejitter", upipe_dejitter_mgr_alloc },
-    { "delay", upipe_delay_mgr_alloc }, { "discard_blocking", upipe_disblo_mgr_alloc },
-    { "dump", upipe_dump_mgr_alloc }, { "genaux", upipe_genaux_mgr_alloc },
-    { "htons", upipe_htons_mgr_alloc }, { "idem", upipe_idem_mgr_alloc },
-    { "match_attr", upipe_match_attr_mgr_alloc }, { "multicat_probe", upipe_multicat_probe_mgr_alloc },
-    { "noclock", upipe_noclock_mgr_alloc }, { "nodemux", upipe_nodemux_mgr_alloc },
-    { "null", upipe_null_mgr_alloc }, { "probe_uref", upipe_probe_uref_mgr_alloc },
-    { "rate_limit", upipe_rate_limit_mgr_alloc }, { "setattr", upipe_setattr_mgr_alloc },
-    { "setflowdef", upipe_setflowdef_mgr_alloc }, { "setrap", upipe_setrap_mgr_alloc },
-    { "skip", upipe_skip_mgr_alloc }, { "time_limit", upipe_time_limit_mgr_alloc },
-    { "dtsdi", upipe_dtsdi_mgr_alloc }, { "ntsc_prepend", upipe_ntsc_prepend_mgr_alloc },
-    { "aggregate", upipe_agg_mgr_alloc }, { "chunk_stream", upipe_chunk_stream_mgr_alloc },
-    { "m3u_reader", upipe_m3u_reader_mgr_alloc }, { "rtp_h264", upipe_rtp_h264_mgr_alloc },
-    { "rtp_mpeg4", upipe_rtp_mpeg4_mgr_alloc },
+    { "buffer", upipe_buffer_mgr_alloc, F_ORDER | F_SAME_PAYLOAD }, { "burst", upipe_burst_mgr_alloc, F_ORDER | F_SAME_PAYLOAD },
+    { "convert_to_block", upipe_tblk_mgr_alloc, 0 }, { "dejitter", upipe_dejitter_mgr_alloc, F_ORDER | F_SAME_PAYLOAD },
+    { "delay", upipe_delay_mgr_alloc, F_ORDER | F_SAME_PAYLOAD | F_IMMEDIATE }, { "discard_blocking", upipe_disblo_mgr_alloc, F_ORDER | F_SAME_PAYLOAD },
+    { "dump", upipe_dump_mgr_alloc, F_ORDER | F_SAME_PAYLOAD | F_IMMEDIATE }, { "genaux", upipe_genaux_mgr_alloc, F_ORDER },
+    { "htons", upipe_htons_mgr_alloc, F_ORDER }, { "idem", upipe_idem_mgr_alloc, F_ORDER | F_SAME_PAYLOAD | F_IMMEDIATE },
+    { "match_attr", upipe_match_attr_mgr_alloc, F_ORDER | F_SAME_PAYLOAD }, { "multicat_probe", upipe_multicat_probe_mgr_alloc, F_ORDER | F_SAME_PAYLOAD | F_IMMEDIATE },
+    { "noclock", upipe_noclock_mgr_alloc, F_ORDER | F_SAME_PAYLOAD | F_IMMEDIATE }, { "nodemux", upipe_nodemux_mgr_alloc, F_ORDER | F_SAME_PAYLOAD },
+    { "null", upipe_null_mgr_alloc, 0 }, { "probe_uref", upipe_probe_uref_mgr_alloc, F_ORDER | F_SAME_PAYLOAD | F_IMMEDIATE },
+    { "rate_limit", upipe_rate_limit_mgr_alloc, F_ORDER | F_SAME_PAYLOAD }, { "setattr", upipe_setattr_mgr_alloc, F_ORDER | F_SAME_PAYLOAD | F_IMMEDIATE },
+    { "setflowdef", upipe_setflowdef_mgr_alloc, F_ORDER | F_SAME_PAYLOAD | F_IMMEDIATE }, { "setrap", upipe_setrap_mgr_alloc, F_ORDER | F_SAME_PAYLOAD | F_IMMEDIATE },
+    { "skip", upipe_skip_mgr_alloc, F_ORDER }, { "time_limit", upipe_time_limit_mgr_alloc, F_ORDER | F_SAME_PAYLOAD },
+    { "dtsdi", upipe_dtsdi_mgr_alloc, 0 }, { "ntsc_prepend", upipe_ntsc_prepend_mgr_alloc, 0 },
+    { "aggregate", upipe_agg_mgr_alloc, 0 }, { "chunk_stream", upipe_chunk_stream_mgr_alloc, 0 },
+    { "m3u_reader", upipe_m3u_reader_mgr_alloc, 0 }, { "rtp_h264", upipe_rtp_h264_mgr_alloc, 0 },
+    { "rtp_mpeg4", upipe_rtp_mpeg4_mgr_alloc, 0 },
 };
 #define NTYPES (int)(sizeof(types) / sizeof(types[0]))
 
@@ -157,6 +167,31 @@ static int type;
 static bool sim_violation_suppressed;
 static bool provider_failed;
 static bool checking(void) { return !sim_violation_class() && !sim_violation_suppressed; }
+
+/* what went in (C05 clauses for the pipes flagged in the table) */
+#define MAXSEQ 256
+static struct { uint64_t hash; unsigned size; bool arrived; } sent_rec[MAXSEQ];
+static uint64_t last_arrived_seq;
+static bool any_arrived, any_refusal;
+static struct upipe *cur_out;
+
+static uint64_t payload_hash(struct uref *uref, unsigned *size_p)
+{
+    size_t size = 0;
+    uint64_t h = 1469598103934665603ULL;
+    if (uref->ubuf == NULL || !ubase_check(uref_block_size(uref, &size))) {
+        *size_p = 0;
+        return 0;
+    }
+    uint8_t buf[256];
+    if (size > sizeof(buf))
+        size = sizeof(buf);
+    if (size && ubase_check(uref_block_extract(uref, 0, (int)size, buf)))
+        for (size_t i = 0; i < size; i++)
+            h = (h ^ buf[i]) * 1099511628211ULL;
+    *size_p = (unsigned)size;
+    return h;
+}
 
 /* ------------------------------------------------------- probe and sinks */
 static struct uprobe root;
@@ -262,6 +297,28 @@ static void sink_input(struct upipe *upipe, struct uref *uref, struct upump **up
             sim_violation(V_NO_FLOW_DEF, "%s sends a buffer to an output that %s", types[type].name,
                           s->refused ? "refused its flow definition" : "was given no flow definition");
     }
+    uint64_t sq = 0;
+    if (ubase_check(uref_attr_get_unsigned(uref, &sq, UDICT_TYPE_UNSIGNED, "x.seq")) && sq < MAXSEQ && checking() &&
+        plan->cfg[CFG_PROP] == 5 && !fault_fired) {
+        unsigned fl = types[type].flags;
+        if (fl & F_ORDER) {
+            if (sent_rec[sq].arrived)
+                sim_violation(V_ORDER, "%s: buffer %" PRIu64 " comes out twice", types[type].name, sq);
+            else if (any_arrived && sq < last_arrived_seq)
+                sim_violation(V_ORDER, "%s: buffer %" PRIu64 " comes out after buffer %" PRIu64, types[type].name, sq,
+                              last_arrived_seq);
+        }
+        if ((fl & F_SAME_PAYLOAD) && checking()) {
+            unsigned size = 0;
+            uint64_t h = payload_hash(uref, &size);
+            if (size != sent_rec[sq].size || h != sent_rec[sq].hash)
+                sim_violation(V_PAYLOAD, "%s: buffer %" PRIu64 " went in with %u octets and comes out with %u, or its content changed",
+                              types[type].name, sq, sent_rec[sq].size, size);
+        }
+        sent_rec[sq].arrived = true;
+        any_arrived = true;
+        last_arrived_seq = sq;
+    }
     uref_free(uref);
 }
 
@@ -274,6 +331,7 @@ static int sink_control(struct upipe *upipe, int command, va_list args)
             sim_violation(V_AFTER_DEAD, "%s sends a flow definition to its output after dead", types[type].name);
         s->flow_defs++;
         if (s->refuse) {
+            any_refusal = true;
             s->refused++;
             s->accepted = false;
             return UBASE_ERR_INVALID;
@@ -415,6 +473,7 @@ static void disarm(const struct sim_op *op)
 
 static uint64_t seq;
 static bool flow_def_accepted;
+
 static void do_op(const struct sim_op *op)
 {
     sim_ev(op_name(op->code), (uint64_t)op->a[0], (uint64_t)op->a[1]);
@@ -484,12 +543,22 @@ static void do_op(const struct sim_op *op)
             if (x & 64) uref_flow_set_random(uref);
             if (x & 128) uref_block_set_start(uref);
             if (x & 256) uref_clock_set_pts_sys(uref, now + x % 50000);
+            uint64_t my = seq < MAXSEQ ? seq : MAXSEQ - 1;
+            uref_attr_set_unsigned(uref, my, UDICT_TYPE_UNSIGNED, "x.seq");
+            sent_rec[my].hash = payload_hash(uref, &sent_rec[my].size);
+            sent_rec[my].arrived = false;
             seq++;
             if (provider_failed)
                 held_while_waiting = true;
             arm(op);
             upipe_input(ut, uref, NULL);
             disarm(op);
+            /* an immediate pass-through pipe with a consenting output has
+             * nothing to keep */
+            if (plan->cfg[CFG_PROP] == 5 && (types[type].flags & F_IMMEDIATE) && checking() && !fault_fired &&
+                !any_refusal && cur_out != NULL && ut != NULL && seq <= MAXSEQ && !sent_rec[my].arrived)
+                sim_violation(V_LOST, "%s: buffer %" PRIu64 " (%u octets) went in and did not come out although its output "
+                              "accepted the flow definition", types[type].name, my, sent_rec[my].size);
         }
         break;
     }
@@ -509,15 +578,50 @@ static void do_op(const struct sim_op *op)
         if (out != NULL)
             sinks[w - 1].accepted = false;     /* has to negotiate again */
         upipe_set_output(ut, out);
+        cur_out = out;
         break;
     }
     case OP_SINK_MODE:
         sinks[(uint64_t)op->a[0] % NSINK].refuse = ((uint64_t)op->a[1] & 1) != 0;
+        if ((uint64_t)op->a[1] & 1)
+            any_refusal = true;
         break;
     case OP_ATTACH:
         if ((uint64_t)op->a[0] & 1) upipe_attach_upump_mgr(ut);
         if ((uint64_t)op->a[0] & 2) upipe_attach_uclock(ut);
         break;
+    case OP_OPTION: {
+        /* the options these pipes have, with their getters (C20's first
+         * clause rides along: what was accepted must read back) */
+        static const uint64_t vals[] = { 0, 1, 8, 64, 200, 1000, 27000, 27000000 };
+        uint64_t v = vals[(uint64_t)op->a[1] % 8], got = ~v;
+        int w = (int)((uint64_t)op->a[0] % 3), err = UBASE_ERR_UNHANDLED, gerr = UBASE_ERR_NONE;
+        const char *name = types[type].name, *what = "?";
+        if (!strcmp(name, "buffer")) {
+            if (w == 0) { what = "max_size"; err = upipe_buffer_set_max_size(ut, v); gerr = upipe_buffer_get_max_size(ut, &got); }
+            else if (w == 1) { what = "low_limit"; err = upipe_buffer_set_low_limit(ut, v); gerr = upipe_buffer_get_low_limit(ut, &got); }
+            else { what = "high_limit"; err = upipe_buffer_set_high_limit(ut, v); gerr = upipe_buffer_get_high_limit(ut, &got); }
+        } else if (!strcmp(name, "time_limit")) {
+            what = "limit"; err = upipe_time_limit_set_limit(ut, v); gerr = upipe_time_limit_get_limit(ut, &got);
+        } else if (!strcmp(name, "rate_limit")) {
+            if (w == 0) { what = "limit"; err = upipe_rate_limit_set_limit(ut, v); gerr = upipe_rate_limit_get_limit(ut, &got); }
+            else { what = "duration"; err = upipe_rate_limit_set_duration(ut, v ? v : 1); v = v ? v : 1; gerr = upipe_rate_limit_get_duration(ut, &got); }
+        } else if (!strcmp(name, "skip")) {
+            size_t o = 0;
+            what = "offset"; err = upipe_skip_set_offset(ut, (size_t)(v % 256)); v %= 256; gerr = upipe_skip_get_offset(ut, &o); got = o;
+        } else if (!strcmp(name, "delay")) {
+            int64_t d = 0;
+            what = "delay"; err = upipe_delay_set_delay(ut, (int64_t)v); gerr = upipe_delay_get_delay(ut, &d); got = (uint64_t)d;
+        } else if (!strcmp(name, "setrap")) {
+            what = "rap"; err = upipe_setrap_set_rap(ut, v); gerr = upipe_setrap_get_rap(ut, &got);
+        } else
+            break;
+        SIM_PROBE("sweep_option_set");
+        if (ubase_check(err) && checking() && (!ubase_check(gerr) || got != v))
+            sim_violation(V_GETTER, "%s: %s set to %" PRIu64 " (accepted), the getter %s %" PRIu64, name, what, v,
+                          ubase_check(gerr) ? "reports" : "fails; it left", got);
+        break;
+    }
     case OP_RELEASE: {
         struct upipe *p = ut;
         ut = NULL;
@@ -535,6 +639,10 @@ static void run(const char *pr, const struct sim_plan *pl)
     type = (int)((uint64_t)plan->cfg[CFG_TYPE] % NTYPES);
     seq = 0;
     flow_def_accepted = false;
+    memset(sent_rec, 0, sizeof(sent_rec));
+    any_arrived = any_refusal = false;
+    last_arrived_seq = 0;
+    cur_out = NULL;
     held_while_waiting = false;
     flow_defs_behind_held = 0;
     if (setjmp(run_abort)) {
@@ -556,6 +664,7 @@ static void run(const char *pr, const struct sim_plan *pl)
         /* events thrown from inside the allocator are attributed afterwards */
         sinks[0].accepted = false;
         upipe_set_output(ut, &sinks[0].upipe);
+        cur_out = &sinks[0].upipe;
         for (int i = 0; i < plan->nops && checking(); i++)
             do_op(&plan->ops[i]);
         if (ut != NULL) {
@@ -601,6 +710,10 @@ static void gen(const char *pr, struct sim_rng *r, struct sim_plan *p)
             sim_plan_add(p, 0, OP_FLOW_DEF, (first + k * 3) % NDEFS, sim_rng_below(r, 16), 0, 0, 0, 0);
     if (sim_rng_chance(r, 1, 2))
         sim_plan_add(p, 0, OP_ATTACH, 3, 0, 0, 0, 0, 0);
+    /* pipes that only do something once configured */
+    for (int k = 0; k < 3; k++)
+        if (sim_rng_chance(r, 1, 2))
+            sim_plan_add(p, 0, OP_OPTION, k, 1 + sim_rng_below(r, 7), 0, 0, 0, 0);
     for (int i = 0; i < n; i++) {
         uint32_t c = sim_rng_below(r, 100);
         int64_t f = p->cfg[CFG_FAULTS] && sim_rng_chance(r, 1, 5) ? 1 + sim_rng_below(r, 5) : 0;
@@ -611,12 +724,13 @@ static void gen(const char *pr, struct sim_rng *r, struct sim_plan *p)
         else if (c < 77) sim_plan_add(p, 0, OP_FLUSH, 0, 0, 0, 0, 0, 0);
         else if (c < 86) sim_plan_add(p, 0, OP_SET_OUTPUT, sim_rng_below(r, 3), 0, 0, 0, 0, 0);
         else if (c < 92) sim_plan_add(p, 0, OP_SINK_MODE, sim_rng_below(r, NSINK), sim_rng_below(r, 2), 0, 0, 0, 0);
-        else if (c < 97) sim_plan_add(p, 0, OP_ATTACH, sim_rng_below(r, 4), 0, 0, 0, 0, 0);
+        else if (c < 95) sim_plan_add(p, 0, OP_ATTACH, sim_rng_below(r, 4), 0, 0, 0, 0, 0);
+        else if (c < 98) sim_plan_add(p, 0, OP_OPTION, sim_rng_below(r, 3), sim_rng_below(r, 8), 0, 0, 0, 0);
         else sim_plan_add(p, 0, OP_RELEASE, 0, 0, 0, 0, 0, 0);
     }
 }
 
-static const char *const props[] = { "C01", "C04", NULL };
+static const char *const props[] = { "C01", "C04", "C05", "C20", NULL };
 const struct sim_engine sim_engine = {
     .name = "esweep", .props = props, .gen = gen, .run = run,
     .class_name = class_name, .op_name = op_name,
